@@ -81,7 +81,7 @@ def tlc_scenarios(ctx):
                 ro.add(e["name"])
         out.append({"name": "+".join(o["classes"]) + "/" + o["argmode"], "files": files, "argv": o["argv"], "B": 1,
                     "links": links, "hard": hard, "rofiles": ro, "rodirs": o["rodirs"], "expect": expect,
-                    "fails": o["fails"], "classes": o["classes"]})
+                    "mayfail": o["mayfail"], "classes": o["classes"]})
     ctx.note("target_class_scenarios_from_tlc", len(out))
     return out
 
@@ -487,13 +487,13 @@ def run(ctx):
                     raise vlib.ToolError("luafmt %s failed rc=%d: %s" % (n, p.returncode, p.stderr[-400:]))
                 fmt[n] = p.stdout
         t = run_traced(luafmt, root, argv, initial=set(files), B=B, table=table)
-        if (t.rc != 0) != bool(scn.get("fails")):
-            raise vlib.ToolError("fault-free luafmt --write in scenario %s: rc=%s, expected %s: %s" % (
-                sname, t.rc, "failure" if scn.get("fails") else "success", t.stderr[-400:]))
+        if t.rc != 0 and not scn.get("mayfail"):
+            raise vlib.ToolError("fault-free luafmt --write failed in scenario %s: rc=%s: %s" % (sname, t.rc, t.stderr[-400:]))
         after = read_dir_canon(root, t)
         for n in fmt:
-            want = fmt[n] if scn.get("expect", {}).get(n, "fmt") == "fmt" else files[n]
-            if after.get(n) != want:
+            exp = scn.get("expect", {}).get(n, "fmt")
+            want = {"fmt": [fmt[n]], "orig": [files[n]], "either": [fmt[n], files[n]]}[exp]
+            if after.get(n) not in want:
                 # the write mode and the stdout mode disagree (or the scenario model of FsAtomicScn is wrong about what a
                 # fault-free run reaches): not C39's business, but the oracle needs it
                 raise vlib.ToolError("scenario %s: content of %s after the fault-free run is not the expected one (%s)" % (
